@@ -17,6 +17,12 @@ n = real comparisons on fields of a store that are nil / unset on some rows: a s
 its surface semantics gives under the valuation "what the code answers for the atom alone on that row" - `not` is the
 exact complement of its operand (theorems not_selects_complement, selection_is_rowwise, same_reading_different_meaning,
 redundant_parens_many in Properties/C12.v).
+Stream n4 (harness c12w9.go): a comparison of the entity's own `id` (equality with an existing id, an absent id, != in
+ordering contains) at EVERY leaf position of EVERY skeleton over two / three leaves (<= 2 parenthesis pairs, <= 2 nots) next
+to ordinary atoms, two id comparisons in one filter, a slice followed by sort by / limit none - through Store.QueryIds
+(the scanners know `id`: whatever they conclude from the place of an id comparison must agree with the grouping as written).
+Every case on store things (n1-n4) is also evaluated through Store.IterateIds over the typed predicate (filtered id cursor):
+same oracle, key C12:iterate-ids.
 Stream m (harness c12w5.go): clauses of ONE operator family on SEVERAL symbols of one type with shared literals
 (`s = "x" or sn = "x" or sn = "xy"`, `i >= 1 and j < 9`, ...) over a 64-row store: every 3-clause sequence of every family in
 ALL groupings, longer chains, random skeletons over walks through the pool; oracle as for n, plus the other groupings of
@@ -206,7 +212,8 @@ def main(argv):
     disagreements = []
     evaluations = 0
     kstats = dict(cases=0, with_word_operator=0, with_negated_word_operator=0)
-    nstats = dict(cases=0, with_not=0, rows_where_all_atoms_false=0)
+    nstats = dict(cases=0, with_not=0, rows_where_all_atoms_false=0, with_an_id_comparison=0, id_comparison_right_of_a_group_with_or_or_not=0,
+                  followed_by_sort_or_limit=0, iterate_ids_compared=0)
     mstats = dict(cases=0, clause_sequences_in_several_groupings=0, cases_with_a_row_where_exactly_one_atom_holds=0,
                   cases_where_neighbouring_clauses_share_operator_and_literal_on_different_symbols=0)
     # stream m (and n): the cases that are groupings of one and the same pure and- / or-chain of clauses (same atom
@@ -284,6 +291,13 @@ def main(argv):
             distinct.add(case)
             nstats["cases"] += 1
             has_not, mixed, _ = features(pre)
+            if stream == "n4":
+                # the entity's own id among the atoms (harness c12w9.go)
+                nstats["with_an_id_comparison"] += 1
+                idn = [n for n, t in zip(names, texts) if t.startswith("id ")]
+                nstats["id_comparison_right_of_a_group_with_or_or_not"] += any(
+                    re.search(r"\([^()]*\b(or|not)\b[^()]*\).*\b%s\b" % n, skel) for n in idn)
+                nstats["followed_by_sort_or_limit"] += (" sort by " in query or " limit " in query)
             if store == "twins":
                 mstats["cases"] += 1
                 mstats["cases_with_a_row_where_exactly_one_atom_holds"] += any(
@@ -356,7 +370,7 @@ def main(argv):
                                 dict(rep, case=case + "\n" + good_case[0], first_differing_row=rowids[r], atoms_true_on_that_row=[t for t, b in zip(texts, abits) if b[r] == "1"],
                                      other_groupings_of_the_same_clauses={q2: ("as expected" if b2 == sbits else b2) for q2, b2 in sibs}))
                     continue
-                proj = fi[3] if len(fi) > 3 else "-"
+                proj = fi[3] if len(fi) > 3 and store != "things" else "-"
                 if proj == sbits:
                     # the code combines the skeleton as written when its atoms are opaque boolean symbols with these very values:
                     # the result is wrong only because of what the clauses look like - they are not evaluated independently
@@ -380,6 +394,17 @@ def main(argv):
                     query, rowids[r], store, vals, "true" if ibits[r] == "1" else "false", "true" if sbits[r] == "1" else "false",
                     why, ibits, sbits), dict(rep, first_differing_row=rowids[r]))
                 continue
+            if store == "things" and len(fi) > 3 and fi[3] != sbits:
+                # the store's other way of evaluating a filter over its rows: the filtered id cursor (harness c12w9.go)
+                nstats["iterate_ids_compared"] += 1
+                c.violation("C12:iterate-ids" if fi[3] not in ("E", "P") else "C12:valid-query-rejected" if fi[3] == "E" else "C12:panic",
+                            "query %r on store %s: Store.QueryIds selects exactly the rows of the surface semantics (%s), but Store.IterateIds over the predicate "
+                            "of the same filter %s: how the connectives combine depends on the way the store is asked" % (
+                                query, store, sbits, "is rejected" if fi[3] == "E" else "panics" if fi[3] == "P" else "yields rows %s" % fi[3]),
+                            dict(rep, rows_yielded_by_iterate_ids=fi[3]))
+                continue
+            if store == "things" and len(fi) > 3:
+                nstats["iterate_ids_compared"] += 1
             if has_not:
                 nstats["with_not"] += 1
                 # a `not` whose operand is false on a row although the plain reading would make it true there:
@@ -505,7 +530,11 @@ def main(argv):
                      "one-clause-per-line / doubled blanks / tabs / random white space / every atom in parentheses / whole filter in 1-3 pairs / both. "
                      "stream n: skeletons over real comparisons (71 atoms: = != < <= > >= contains icontains in between null, their not-forms, anyOf/allOf/count/isEmpty; "
                      "string, int, float, datetime, bool, set) on a store whose rows leave fields unset / explicitly nil: n1 = every skeleton over one atom (<= 2 parens, <= 3 nots) x every atom, "
-                     "n2 = every two-leaf skeleton with a not, n3 = random over three atoms; oracle per row: surface semantics under the code's own value of each atom on that row. "
+                     "n2 = every two-leaf skeleton with a not, n3 = random over three atoms; oracle per row: surface semantics under the code's own value of each atom on that row; "
+                     "n4 = a comparison of the entity's own id (= existing id, = absent id, != in not-in > <= contains) at every leaf position of EVERY skeleton over 2 and 3 leaves "
+                     "(<= 2 parenthesis pairs, <= 2 nots; all skeletons for one atom tuple, so every chain is there in all groupings), two id comparisons in one filter, "
+                     "a slice followed by sort by id / sort by s / limit none (sorting scanner) - same oracle, through Store.QueryIds; the id atoms alone in every one-leaf skeleton; "
+                     "every n1-n4 case also through Store.IterateIds over the typed predicate (filtered id cursor), same oracle. "
                      "stream m: skeletons over real comparisons of ONE operator family on SEVERAL symbols of one type with shared literals (19 families: string/int/float/datetime "
                      "= in between / != not-in not-between / < >= <= > / contains icontains / null, bool, anyOf allOf count isEmpty on two set symbols) on a 64-row store holding the full "
                      "product of the values of the symbols of a family: m1 = every 3-clause sequence of one family (8 symbol patterns x 5 literal patterns x 4 and/or sequences, each form) in ALL "
